@@ -195,6 +195,20 @@ impl Checker for C12Checker {
                     }
                     Res::Err(_) => {
                         s.probe("set_rejected");
+                        // a rejected request leaves everything as before, so the same request is rejected again
+                        if !self.file_event_pending {
+                            let again = s.call(op);
+                            if again.is_ok() {
+                                s.violation_g(
+                                    "rejected-then-accepted",
+                                    format!("the same set_preference({}) is rejected and then accepted", if is_float { "<number preference>" } else if is_bool { "<boolean preference>" } else { name.as_str() }),
+                                    "the same set_preference is rejected and then accepted".into(),
+                                    format!("set_preference({:?},{:?}): first {}, repeated immediately: Ok", name, value, res.short()),
+                                );
+                                return;
+                            }
+                            s.probe("rejection_repeatable");
+                        }
                         // nothing changed: no preference, no output
                         self.check_frame(s, "a rejected set_preference", &[]);
                         if let Some(before) = self.before_outputs.clone() {
